@@ -16,57 +16,6 @@ From BLB Require Import Lib.LTS Raft.Core Raft.Wire Raft.NodeProofs Raft.NodeKee
 Import ListNotations.
 Open Scope N_scope.
 
-(* a delivery that makes the node emit anything leaves it in the term of the delivered message *)
-Lemma handle_msg_term s m s' :
-  n_msgs s = [] -> handle_msg s m = Ret s' -> n_msgs s' = [] \/ p_term (n_p s') = m_term m.
-Proof.
-  intro Hm. unfold handle_msg.
-  match goal with |- (if ?c then _ else _) = _ -> _ => destruct c end; [intro H; inversion H; subst; left; auto|].
-  match goal with |- (if ?c then _ else _) = _ -> _ => destruct c end; [intro H; inversion H; subst; left; auto|].
-  assert (H1 : forall s1, (if guid_get (m_from m) (p_guids (n_p s)) =? 0 then do_mut (MSetGuid (m_from m) (m_fromg m)) s else Ret s) = Ret s1 ->
-               n_msgs s1 = []).
-  { intros s1. destruct (guid_get (m_from m) (p_guids (n_p s)) =? 0).
-    - unfold do_mut. destruct (negb (n_budget s =? 0) && (n_budget s =? n_cnt s + 1)); [discriminate|].
-      intro E. inversion E. simpl. exact Hm.
-    - intro E. inversion E. subst. exact Hm. }
-  destruct (if guid_get (m_from m) (p_guids (n_p s)) =? 0 then do_mut (MSetGuid (m_from m) (m_fromg m)) s else Ret s) as [s1 | |];
-    simpl; try discriminate.
-  specialize (H1 s1 eq_refl).
-  match goal with |- (if ?c then _ else _) = _ -> _ => destruct c end; [intro H; inversion H; subst; left; auto|].
-  destruct (m_term m <? p_term (n_p s1)) eqn:Elt; [intro H; inversion H; subst; left; auto|].
-  assert (Hrole : forall s2, n_msgs s2 = [] -> p_term (n_p s2) = m_term m -> handle_by_role s2 m = Ret s' ->
-                    p_term (n_p s') = m_term m).
-  { intros s2 M2 T2. unfold handle_by_role. destruct (n_role s2).
-    - intro H. apply handle_follower_sum in H; auto. destruct H as [_ [T _]]. congruence.
-    - intro H. apply handle_candidate_sum in H. destruct H as [T _]. congruence.
-    - intro H. pose proof (kx_handle_leader s2 m) as K. rewrite H in K. simpl in K. destruct K as [T _]. congruence. }
-  destruct (p_term (n_p s1) <? m_term m) eqn:Egt.
-  - assert (H2 : forall s2,
-               (match m_body m with
-                | AppEnts _ _ _ _ | InstallSnap _ _ _ =>
-                    s'0 <- do_mut (MSaveState (m_from m) (m_term m)) s1 ;; Ret (become_follower s'0 (m_from m))
-                | VoteReq _ _ => s'0 <- do_mut (MSaveState 0 (m_term m)) s1 ;; Ret (become_follower s'0 0)
-                | _ => Fatal F_RESP_HIGHER_TERM
-                end) = Ret s2 -> n_msgs s2 = [] /\ p_term (n_p s2) = m_term m).
-    { intros s2. destruct (m_body m); try discriminate;
-        unfold do_mut; destruct (negb (n_budget s1 =? 0) && (n_budget s1 =? n_cnt s1 + 1)); simpl; try discriminate;
-        intro X; inversion X; simpl; split; auto. }
-    match goal with |- bind ?a _ = _ -> _ => destruct a as [s2 | |] end; simpl; try discriminate.
-    destruct (H2 s2 eq_refl) as [M2 T2]. intro H. right. eapply Hrole; eauto.
-  - apply N.ltb_ge in Elt, Egt. simpl. intro H. right. eapply Hrole; eauto. lia.
-Qed.
-
-Lemma deliver_term s m k crashed st s' :
-  run_event_crash (settle s) (EDeliver m) k = Ret (crashed, st, s') -> n_msgs s' = [] \/ p_term (n_p s') = m_term m.
-Proof.
-  unfold run_event_crash. simpl. unfold wrap0.
-  destruct (handle_msg (with_budget (settle s) k) m) as [x | c | p] eqn:E; simpl; try discriminate.
-  - intro H. inversion H. subst. apply handle_msg_term in E; [| reflexivity]. simpl. exact E.
-  - pose proof (new_core_pext (n_id s) (n_cfg s) p) as Q.
-    destruct (new_core (n_id s) (n_cfg s) p); simpl in *; try discriminate.
-    intro H. inversion H. subst. left. tauto.
-Qed.
-
 Lemma nodup_in_eq (c : list node) a b : NoDup (map n_id c) -> In a c -> In b c -> n_id a = n_id b -> a = b.
 Proof.
   intros Hn Ha Hb E. pose proof (in_get_node _ _ Hn Ha) as Ga. pose proof (in_get_node _ _ Hn Hb) as Gb.
